@@ -192,7 +192,7 @@ def items(tier):
     for sp, o in list(out)[:: (29 if tier == "quick" else 7)]:
         out.append((sp, dict(o, via_json=True)))
     for sp in F.scale_specs():
-        if sp["label"] in ("scale:layers3x4", "scale:seven-predecessors", "scale:chain10+branches"):
+        if sp["label"] in ("scale:layers3x4", "scale:seven-predecessors", "scale:chain10+branches", "scale:nine-successors", "scale:ten-predecessors"):
             out.append((sp, {"rule": "TSLACK", "due": False, "rev": True, "absence": [], "max_time": F.seq_bound(sp) + 20}))
     for sp in F.same_name_task_specs():
         for rev in (True, False):
